@@ -217,3 +217,39 @@ package capnp
 //@   props C01 C03
 //@   requires wfPtr(p)
 //@   ensures implies(isOneByteList(p) && p.flags&ptrFlags(isBitList) == 0 && len(p.seg.data) > 0, len(b) == int(p.lenOrCap))
+
+// ---------------------------------------------------------------- message.go: root pointer
+
+//@ func Message.depthLimit -> r
+//@   props C02
+//@   requires m != nil
+//@   modifies nothing
+//@   ensures r >= 1
+
+//@ func Segment.root -> r
+//@   props C01 C03
+//@   requires segOK(s)
+//@   modifies nothing
+//@   -- the one-element pointer list over the first word, or the zero list when the segment has no
+//@   -- first word
+//@   ensures (r.List.seg != nil) == (M(len(s.data)) >= 8)
+//@   ensures implies(r.List.seg != nil, r.List.seg == s && r.List.off == 0 && r.List.length == 1 && r.List.flags == 0 &&
+//@     r.List.size.DataSize == 0 && r.List.size.PointerCount == 1 && wfList(r.List))
+
+//@ func Message.Segment -> seg, err
+//@   props C01
+//@   requires m != nil && m.Arena != nil
+//@   modifies Message.segs Message.firstSeg Segment.id Segment.msg Segment.data m:map[capnproto.org/go/capnp/v3.SegmentID]*capnproto.org/go/capnp/v3.Segment
+//@   ensures implies(err != nil, seg == nil)
+//@   ensures implies(err == nil, seg != nil)
+//@   -- every segment of a message obeys the handle invariant and belongs to the message (as for
+//@   -- lookupSegment; DESIGN 4)
+//@   assumes implies(err == nil, segOK(seg) && seg.msg == m)
+
+// Reading the root of any message - including one whose first segment is shorter than a word -
+// never panics.
+//@ func Message.Root -> p, err
+//@   props C01 C03
+//@   requires m != nil && m.Arena != nil
+//@   ensures implies(err != nil, p.seg == nil)
+//@   ensures implies(err == nil, wfPtr(p))
